@@ -1,6 +1,7 @@
 package main
 
 import (
+	"os"
 	"fmt"
 	"go/types"
 	"strings"
@@ -71,6 +72,12 @@ func (v *Env) lookup(name string) *Val {
 		}
 	}
 	if v.noLocals {
+		if c := v.pkgConst(name); c != nil {
+			return c
+		}
+		if g := v.pkgVar(name); g != nil {
+			return g
+		}
 		panic("contract: unknown identifier " + name)
 	}
 	// source-level local at a loop header
@@ -175,13 +182,57 @@ func (v *Env) pkgVar(name string) *Val {
 	}
 	g, ok := fn.Pkg.Members[name].(*ssa.Global)
 	if !ok {
-		return nil
+		// an exported variable of a directly imported package, when the name is unambiguous (e.g. patch.NoSuchFieldErr)
+		var found *ssa.Global
+		n := 0
+		for _, imp := range fn.Pkg.Pkg.Imports() {
+			if ip := fn.Prog.Package(imp); ip != nil {
+				if ig, ok := ip.Members[name].(*ssa.Global); ok && ig.Object().Exported() {
+					found = ig
+					n++
+				}
+			}
+		}
+		if n != 1 {
+			if os.Getenv("GOVC_DEBUG") != "" {
+				fmt.Fprintf(os.Stderr, "pkgVar %s: %d candidates among %d imports of %s\n", name, n, len(fn.Pkg.Pkg.Imports()), fn.Pkg.Pkg.Path())
+			}
+			return nil
+		}
+		g = found
 	}
 	pt, ok := g.Type().Underlying().(*types.Pointer)
 	if !ok {
 		return nil
 	}
 	return v.e.loadAt(v.st, v.e.val(g).c[0], pt.Elem())
+}
+
+// importedVar: pkgname.Name for an exported package-level variable of a package the function's package imports.
+func (v *Env) importedVar(pkg, name string) *Val {
+	if _, isVar := v.vars[pkg]; isVar {
+		return nil
+	}
+	fn := v.e.fn
+	for fn.Parent() != nil {
+		fn = fn.Parent()
+	}
+	if fn.Pkg == nil {
+		return nil
+	}
+	for _, imp := range fn.Pkg.Pkg.Imports() {
+		if imp.Name() != pkg {
+			continue
+		}
+		if ip := fn.Prog.Package(imp); ip != nil {
+			if ig, ok := ip.Members[name].(*ssa.Global); ok && ig.Object().Exported() {
+				if pt, ok := ig.Type().Underlying().(*types.Pointer); ok {
+					return v.e.loadAt(v.st, v.e.val(ig).c[0], pt.Elem())
+				}
+			}
+		}
+	}
+	return nil
 }
 
 func (v *Env) debugRefVal(d *ssa.DebugRef) *Val {
@@ -296,6 +347,12 @@ func (v *Env) eval(x Expr) *Val {
 		o.st = v.old
 		return o.eval(x.X)
 	case *ESel:
+		// pkg.Name: an exported variable of a directly imported package (when pkg is not a variable in scope)
+		if id, ok := x.X.(*EIdent); ok {
+			if g := v.importedVar(id.Name, x.Name); g != nil {
+				return g
+			}
+		}
 		base := v.eval(x.X)
 		return v.sel(base, x.Name)
 	case *EIndex:
@@ -656,6 +713,14 @@ func (v *Env) eval(x Expr) *Val {
 				inner.vars[p] = v.eval(x.Args[i])
 			}
 			return inner.eval(pd.Body)
+		}
+		if sf, ok := e.db.specFn[x.Fn]; ok && len(sf.Params) == len(x.Args) {
+			// ghost spec function (uninterpreted; given meaning by a ghostdef)
+			var as []*Val
+			for _, a := range x.Args {
+				as = append(as, v.eval(a))
+			}
+			return e.ufTerm("spec."+x.Fn, as, tInt)
 		}
 		panic("contract: unknown function " + x.Fn)
 	case *EFloat:
